@@ -189,14 +189,14 @@ def c03_scenarios(cases, prop):
     for k, c in enumerate(cases):
         name = f"bad-{k}"
         if c["installed"]:
-            eph0.append(installed(name, ["a"], ["c"]))
+            eph0.append(installed(name, [], []) if c.get("empty") else installed(name, ["a"], ["c"]))
         if c["class"] == "malformed-annotation":
             running.append(stmt(name, "/* bgpfu-fltr: error! */"))
             policies[name] = exp(False, True, "none", why="malformed-annotation installed=%s" % c["installed"])
         else:
             expr, ev = bad_policy(irr, c["class"], k)
             running.append(stmt(name, f"/* bgpfu-fltr: {expr} */"))
-            policies[name] = exp(True, True, ev, why=f"{c['class']} installed={c['installed']}")
+            policies[name] = exp(True, True, ev, why=f"{c['class']} installed={c['installed']}" + (" without prefixes" if c.get("empty") else ""))
     # several installed policies whose expressions share one unobtainable set (and one that mixes it with good data)
     for cls in ("unknown-as-set", "error-F"):
         sexpr, sev = bad_policy(irr, cls, f"-SHARED-{cls[:3].upper()}")
@@ -233,12 +233,12 @@ def c03_scenarios(cases, prop):
     out.append({"case": f"{prop}-all", "instance": "bgpfu", "eph0": eph0, "runs": runs, "meta": {"family": "c03"}})
     # one scenario per case as well (so that one failing case cannot mask another)
     for k, c in enumerate(cases):
-        irr = Irr(); name = f"bad-{k}"; eph = [installed(name, ["a"], ["c"])] if c["installed"] else []
+        irr = Irr(); name = f"bad-{k}"; eph = [installed(name, [], []) if c.get("empty") else installed(name, ["a"], ["c"])] if c["installed"] else []
         if c["class"] == "malformed-annotation":
             st = stmt(name, "/* bgpfu-fltr: error! */"); e = exp(False, True, "none", why="malformed-annotation installed=%s" % c["installed"])
         else:
             expr, ev = bad_policy(irr, c["class"], k)
-            st = stmt(name, f"/* bgpfu-fltr: {expr} */"); e = exp(True, True, ev, why=f"{c['class']} installed={c['installed']}")
+            st = stmt(name, f"/* bgpfu-fltr: {expr} */"); e = exp(True, True, ev, why=f"{c['class']} installed={c['installed']}" + (" without prefixes" if c.get("empty") else ""))
         gexpr = irr.asset_with(["d"], ["c"])
         out.append({"case": f"{prop}-c{k}", "instance": "bgpfu", "eph0": eph,
                     "runs": [{"running": [st, stmt("good", f"/* bgpfu-fltr: {gexpr} */")], "irr": irr.db, "faults": [], "repeat": False,
